@@ -1,6 +1,236 @@
 import Fabio.Driver.Proto
-namespace Fabio.Driver.C02
-open Lean Fabio.Driver
+import Fabio.Driver.RouteJson
+import Fabio.Model.Route
+import Fabio.Model.Parse
+import Fabio.Model.C02
+/-!
+Driver handlers for C02.
 
-def streams : List (String × Handler) := []
+* `c02.history` — `agree`: the active table after every event equals the Lean step machine `WB.trace` whose
+  `build` is the model of `route.NewTable` (`Parse.loadTable`, oracles for ParseFloat/url/glob shipped on the
+  implementation line). `spec`: the history sentence of the property evaluated on the implementation's OWN
+  observables only — with `build_i` = what the real `NewTable` made of the i-th concatenated text (computed in
+  the harness process) the active table after event i must be the table of the last `build_j`, `j ≤ i`, that is a
+  table (the empty table if none); no crash of the child, no panic of `NewTable`.
+* `c02.custom` — same for the custom backend: `agree` against `customTrace` (repaired `newTableCustom`,
+  `buildDefs` = `Route.newTable` on the definitions Go's encoding/json decoded), `spec`: active = table of the
+  last document that decoded into a fresh variable and built.
+* `c02.nopanic` — `spec`: outcome ≠ panic and no panic while the built table was rendered and looked up;
+  `agree`: outcome class (and, for ASCII texts, the host/path/target skeleton) equals the total model's.
+* `c02.swap` — `spec`: no mixed answer, no table out of publication order, none outside the load window, no
+  unpublished or nil table.
+-/
+namespace Fabio.Driver.C02
+open Lean Fabio.Driver Fabio.Driver.RouteJson Fabio.Model.Route Fabio.Model.Parse Fabio.Model.C02
+
+def objOr (j : Json) (k : String) : Json := (j.getObjVal? k).toOption.getD (Json.mkObj [])
+def has (j : Json) (k : String) : Bool := (j.getObjVal? k).toOption.isSome
+def arrOf (j : Json) (k : String) : List Json :=
+  match j.getObjVal? k with
+  | .ok (.arr a) => a.toList
+  | _ => []
+def natOf (j : Json) (k : String) : Nat := (j.getObjValAs? Nat k).toOption.getD 0
+
+def pfOf (o : Json) : ParseFloat :=
+  let p := objOr o "pf"
+  fun s => match p.getObjVal? (String.ofList s) with
+    | .ok (.str "nan") => some .nan
+    | .ok (.str "inf") => some .posInf
+    | .ok (.str "-inf") => some .negInf
+    | .ok (.str r) => (parseRat r).map .fin
+    | _ => none
+
+def emptyDump : Json := Json.arr #[]
+
+/-- `route.NewTable` as the model's `build` -/
+def buildOf (o : Json) : Text → Option Table :=
+  let env := envOf o
+  let pf := pfOf o
+  fun text => (loadTable env pf text).toOption
+
+/-- the table an implementation-side build outcome denotes (`none` = error or panic) -/
+def builtTable (b : Json) : Option Json := (b.getObjVal? "table").toOption
+
+def crashTag (impl : Json) : Option String :=
+  match impl.getObjVal? "crash" with
+  | .ok c => some (if has c "hang" then "update-loop-hang" else if has c "panic" then "update-loop-panic" else "child-bad-reply")
+  | .error _ => none
+
+/-! ### c02.history -/
+
+def eventOf (j : Json) : Option Ev :=
+  if has j "hex" then none else
+  let t := getStrD j "text"
+  match (j.getObjValAs? String "src").toOption with
+  | some "man" => some (.man t)
+  | _ => some (.svc t)
+
+/-- walk the implementation's steps: `cur` = table of the last good build so far; result = (ok, class flags) -/
+structure HistAcc where
+  cur : Json := emptyDump
+  ok : Bool := true
+  bad : String := ""
+  seenOk : Bool := false
+  failAfterOk : Bool := false
+  recovered : Bool := false
+  panics : Bool := false
+  nOk : Nat := 0
+  nFail : Nat := 0
+
+def histStep (a : HistAcc) (step : Json) : HistAcc :=
+  let b := objOr step "build"
+  let active := (step.getObjVal? "active").toOption.getD Json.null
+  let a := if has b "panic" then { a with panics := true, ok := false, bad := if a.bad.isEmpty then "newtable-panic" else a.bad } else a
+  match builtTable b with
+  | some t =>
+    let a := { a with cur := t, seenOk := true, nOk := a.nOk + 1, recovered := a.recovered || a.failAfterOk }
+    if active == t then a else { a with ok := false, bad := if a.bad.isEmpty then "valid-not-applied" else a.bad }
+  | none =>
+    let a := { a with nFail := a.nFail + 1, failAfterOk := a.failAfterOk || a.seenOk }
+    if active == a.cur then a else { a with ok := false, bad := if a.bad.isEmpty then "last-good-not-kept" else a.bad }
+
+def historyH : Handler := fun inp impl => do
+  let evsJ := arrOf inp "events"
+  let steps := arrOf impl "steps"
+  let acc := steps.foldl histStep {}
+  let crash := crashTag impl
+  let spec := acc.ok && crash.isNone && steps.length == evsJ.length
+  -- the model
+  let evs := evsJ.map eventOf
+  let inModel := evs.all Option.isSome
+  let o := objOr impl "oracle"
+  let trace := WB.trace (buildOf o) (WB.init ([] : Table)) (evs.filterMap id)
+  let m := Json.arr (trace.map tableJson).toArray
+  let agree := !inModel ||
+    (crash.isNone && trace.length == steps.length &&
+     (trace.zip steps).all (fun (t, s) => closeJson (tableJson t) ((s.getObjVal? "active").toOption.getD Json.null)))
+  let tag := match crash with
+    | some c => c
+    | none =>
+      if !acc.ok then acc.bad
+      else if steps.length != evsJ.length then "steps-missing"
+      else
+        let base := if acc.nFail == 0 then "all-build" else if acc.nOk == 0 then "none-builds"
+          else if acc.recovered then "fail-then-recover" else if acc.failAfterOk then "fail-keeps-last" else "fail-first"
+        if inModel then base else base ++ "/bytes-outside-model"
+  return ({ model := m, agree, spec, nontrivial := acc.failAfterOk && acc.recovered, tag } : Verdict).toJson
+
+/-! ### c02.custom -/
+
+def pollOf (step : Json) : Except String (Poll (List RouteDef)) := do
+  let d := objOr step "decoded"
+  if has d "httpError" then return .httpError
+  if has d "decodeError" then return .decodeError
+  if has d "null" then return .null
+  let ds ← (arrOf d "defs").mapM (fun j => do
+    let rd ← routeDef j
+    -- the custom backend's documents carry the full command names; anything else is an invalid command
+    let c := (j.getObjValAs? String "cmd").toOption.getD ""
+    let cmd : Cmd := if c == "route add" then .add else if c == "route del" then .del
+      else if c == "route weight" then .weight else .other c.toList
+    return { rd with cmd := cmd })
+  return .defs ds
+
+structure CustAcc where
+  cur : Json := emptyDump
+  ok : Bool := true
+  bad : String := ""
+  nInstalled : Nat := 0
+  nKept : Nat := 0
+  nullSeen : Bool := false
+
+def custStep (a : CustAcc) (step : Json) : CustAcc :=
+  let d := objOr step "decoded"
+  let b := objOr step "build"
+  let active := (step.getObjVal? "active").toOption.getD Json.null
+  let a := if has d "null" then { a with nullSeen := true } else a
+  let a := if has b "panic" then { a with ok := false, bad := if a.bad.isEmpty then "newtablecustom-panic" else a.bad } else a
+  match (if has d "defs" then builtTable b else none) with
+  | some t =>
+    let a := { a with cur := t, nInstalled := a.nInstalled + 1 }
+    if active == t then a else { a with ok := false, bad := if a.bad.isEmpty then "active-differs-from-document" else a.bad }
+  | none =>
+    let a := { a with nKept := a.nKept + 1 }
+    if active == a.cur then a else { a with ok := false, bad := if a.bad.isEmpty then "last-good-not-kept" else a.bad }
+
+def customH : Handler := fun inp impl => do
+  let pollsJ := arrOf inp "polls"
+  let steps := arrOf impl "steps"
+  let crash := crashTag impl
+  -- on a crash the last step carries no "active": judge the steps before it
+  let judged := if crash.isSome then steps.dropLast else steps
+  let acc := judged.foldl custStep {}
+  let spec := acc.ok && crash.isNone && steps.length == pollsJ.length
+  let o := objOr impl "oracle"
+  let env := envOf o
+  let polls ← steps.mapM pollOf
+  let trace := customTrace (newTableCustom (fun ds => (newTable env ds).toOption)) ([] : Table) polls
+  let m := Json.arr (trace.map (fun t => match t with | some t => tableJson t | none => Json.null)).toArray
+  let agree := crash.isNone && trace.length == steps.length &&
+    (trace.zip steps).all (fun (t, s) => match t with
+      | some t => closeJson (tableJson t) ((s.getObjVal? "active").toOption.getD Json.null)
+      | none => false)
+  let tag := match crash with
+    | some c => if acc.nullSeen || (steps.getLast?.map (fun s => has (objOr s "decoded") "null")).getD false then c ++ "-on-null" else c
+    | none =>
+      if !acc.ok then acc.bad
+      else if steps.length != pollsJ.length then "steps-missing"
+      else if acc.nInstalled == 0 then "nothing-installed"
+      else if acc.nKept == 0 then "all-installed" else (if acc.nullSeen then "mixed+null" else "mixed")
+  return ({ model := m, agree, spec, nontrivial := acc.nInstalled > 0 && acc.nKept > 0, tag } : Verdict).toJson
+
+/-! ### c02.nopanic -/
+
+def skeletonJson (t : Table) : Json :=
+  Json.arr ((sortHosts t).flatMap (fun kv => kv.2.map (fun r =>
+    Json.mkObj [("host", str r.host), ("path", str r.path),
+      ("targets", Json.arr (r.targets.map (fun tg => Json.arr #[str tg.service, str tg.url])).toArray)]))).toArray
+
+def nopanicH : Handler := fun inp impl => do
+  let kind := (inp.getObjValAs? String "kind").toOption.getD "text"
+  let outcome := (impl.getObjValAs? String "outcome").toOption.getD "?"
+  let usePanic := has impl "usePanic"
+  let spec := outcome != "panic" && outcome != "?" && !usePanic
+  let what := match impl.getObjVal? "what" with
+    | .ok (.str s) => s
+    | .ok w => (w.getObjValAs? String "kind").toOption.getD "err" ++
+        (match (w.getObjValAs? String "what").toOption with | some s => ":" ++ (s.takeWhile (· != ':')).toString | none => "")
+    | .error _ => ""
+  let modelled := kind == "text" && has impl "oracle" && !has inp "amp" && !has inp "hex"
+  let (m, agree, cls) :=
+    if modelled then
+      let o := objOr impl "oracle"
+      let text := getStrD inp "text"
+      let res := loadTable (envOf o) (pfOf o) text
+      match res with
+      | .ok t =>
+        let sk := skeletonJson t
+        let skOk := !text.all (fun c => c.toNat < 128) || !has impl "skeleton" || (impl.getObjVal? "skeleton").toOption == some sk
+        (Json.mkObj [("outcome", "table"), ("skeleton", sk)], outcome == "table" && skOk, "")
+      | .error _ => (Json.mkObj [("outcome", "error")], outcome == "error", "")
+    else (Json.null, true, "/outside-model")
+  let tag :=
+    if usePanic then kind ++ ":use-panic"
+    else if outcome == "panic" then kind ++ ":build-panic"
+    else if outcome == "table" then kind ++ ":table" ++ cls
+    else kind ++ ":error:" ++ what ++ cls
+  let nontrivial := outcome == "table" || (outcome == "error" && what != "decode" && !what.startsWith "syn")
+  return ({ model := m, agree, spec, nontrivial, tag } : Verdict).toJson
+
+/-! ### c02.swap -/
+
+def swapH : Handler := fun _inp impl => do
+  let by_ := objOr impl "byFamily"
+  let zero := fun k => natOf impl k == 0
+  let spec := has impl "lookups" && zero "mixed" && zero "order" && zero "window" && zero "unknown" && zero "nilTable"
+  let tag := if !has impl "lookups" then "harness-error"
+    else if !zero "mixed" then "mixed-answer" else if !zero "nilTable" then "nil-table-loaded"
+    else if !zero "unknown" then "unpublished-table" else if !zero "order" then "went-back-in-time"
+    else if !zero "window" then "outside-load-window"
+    else "clean-" ++ (impl.getObjValAs? String "matcher").toOption.getD "?"
+  let m := Json.mkObj [("mixed", (0 : Nat)), ("order", (0 : Nat)), ("window", (0 : Nat)), ("unknown", (0 : Nat)), ("nilTable", (0 : Nat))]
+  return ({ model := m, agree := spec, spec, nontrivial := natOf by_ "A" > 0 && natOf by_ "B" > 0, tag } : Verdict).toJson
+
+def streams : List (String × Handler) :=
+  [("c02.history", historyH), ("c02.custom", customH), ("c02.nopanic", nopanicH), ("c02.swap", swapH)]
 end Fabio.Driver.C02
